@@ -1,6 +1,7 @@
 package main
 
 import (
+	"go/ast"
 	"fmt"
 	"go/types"
 	"sort"
@@ -243,6 +244,11 @@ func (e *Exec) finishPath(st *State, fr *Frame, res Value, in *ssa.Return) {
 	for _, en := range e.contract.Ensures {
 		g, cerr := env.tryEvalBool(en.E)
 		if cerr != "" {
+			if strings.HasPrefix(cerr, "unknown identifier ") && e.isLocalName(strings.Trim(strings.TrimPrefix(cerr, "unknown identifier "), "\"")) {
+				// a local variable of this function that is not defined on this
+				// return path: the clause says nothing here
+				continue
+			}
 			e.stale[fmt.Sprintf("ensures[%s] of %s cannot be evaluated (%s)", strings.Join(en.Labels, ","), e.unit, cerr)] = true
 			continue
 		}
@@ -640,4 +646,23 @@ func (e *Exec) valEq(a, b Value) T {
 		return False
 	}
 	return e.refEq(a, b)
+}
+
+
+// isLocalName reports whether name is a local variable of the unit (it has a
+// debug reference somewhere in the function).
+func (e *Exec) isLocalName(name string) bool {
+	if e.localNames == nil {
+		e.localNames = map[string]bool{}
+		for _, b := range e.fn.Blocks {
+			for _, in := range b.Instrs {
+				if d, ok := in.(*ssa.DebugRef); ok {
+					if id, ok := d.Expr.(*ast.Ident); ok {
+						e.localNames[id.Name] = true
+					}
+				}
+			}
+		}
+	}
+	return e.localNames[name]
 }
